@@ -6,6 +6,7 @@ import Mixin.Model.SnapCodec
     enc <v> <node> <round> <refs> <txs> <ts> <sig> <topo>   VersionedMarshal
     pay <v> <node> <round> <refs> <txs> <ts> <sig>          versionedPayload
     heq <7 fields> <7 fields>                       payloads equal?
+    hmut <7 fields> <7 fields>                      same, asked of one object mutated in place
 
     refs: `-` or `self:ext`; txs: `-` or comma-joined hex; sig: `-` or `mask:hex`. -/
 namespace Mixin.Driver.SnapCodec
@@ -69,6 +70,13 @@ def showBytes : Option Bytes → String
   | some b => "ok " ++ toHex b
   | none => "panic"
 
+def payloadsEqual : Option Snapshot → Option Snapshot → String
+  | some s, some s' =>
+    match versionedPayload s, versionedPayload s' with
+    | some p, some p' => if p = p' then "eq" else "ne"
+    | _, _ => "panic"
+  | _, _ => "bad-op"
+
 def step (t : List String) : String :=
   match t with
   | ["dec", h] =>
@@ -93,12 +101,11 @@ def step (t : List String) : String :=
     | some s => showBytes (versionedPayload s)
     | none => "bad-op"
   | ["heq", v, node, round, refs, txs, ts, sig, v', node', round', refs', txs', ts', sig'] =>
-    match parseSnap v node round refs txs ts sig, parseSnap v' node' round' refs' txs' ts' sig' with
-    | some s, some s' =>
-      match versionedPayload s, versionedPayload s' with
-      | some p, some p' => if p = p' then "eq" else "ne"
-      | _, _ => "panic"
-    | _, _ => "bad-op"
+    payloadsEqual (parseSnap v node round refs txs ts sig) (parseSnap v' node' round' refs' txs' ts' sig')
+  -- the same question asked of one object mutated in place after its Hash field was filled:
+  -- in the model the hash is a function of the payload, so the answer is the same
+  | ["hmut", v, node, round, refs, txs, ts, sig, v', node', round', refs', txs', ts', sig'] =>
+    payloadsEqual (parseSnap v node round refs txs ts sig) (parseSnap v' node' round' refs' txs' ts' sig')
   | _ => "bad-op"
 
 def run : IO Unit := runPure step
